@@ -419,6 +419,30 @@ func init() {
 		return TupleV{c.p.newByteSliceNoMonitor(bs), IfaceV{}}, ctlRet
 	}, "encoding/json.Marshal", "encoding/json.MarshalIndent")
 
+	// ---- timers never fire within a run (timeouts do not expire; stated as an assumption) ----
+	newTimer := func(c *callCtx, withChan bool) Value {
+		p := c.p
+		pkg := p.wk.w.prog.ImportedPackage("time")
+		tt := pkg.Pkg.Scope().Lookup("Timer").Type()
+		zv := p.wk.zero(tt).(*StructV)
+		if withChan {
+			st := tt.Underlying().(*types.Struct)
+			for i := 0; i < st.NumFields(); i++ {
+				if st.Field(i).Name() == "C" {
+					ct := st.Field(i).Type()
+					cd := &ChanData{cap: 1, et: ct.Underlying().(*types.Chan).Elem()}
+					o := p.h.alloc(ct, cd, "timer chan")
+					zv.f[i] = ChanV{id: o.id}
+				}
+			}
+		}
+		o := p.h.alloc(tt, zv, "timer")
+		return PtrV{id: o.id}
+	}
+	reg(func(c *callCtx) (Value, ctl) { return newTimer(c, false), ctlRet }, "time.AfterFunc")
+	reg(func(c *callCtx) (Value, ctl) { return newTimer(c, true), ctlRet }, "time.NewTimer")
+	reg(func(c *callCtx) (Value, ctl) { return c.p.tc().True, ctlRet }, "(*time.Timer).Stop", "(*time.Timer).Reset")
+
 	// ---- randomness: fresh symbolic bytes ----
 	reg(func(c *callCtx) (Value, ctl) {
 		p := c.p
